@@ -267,6 +267,27 @@ def check(ctx: Ctx) -> list[RuleResult]:
             r6.fail(f"{fn.short}:refill-without-stamp", fn.loc(rf.ast), f"after the refill `{norm(rf.ast)[:70]}` an exit is reachable without {model.stamp} having been advanced: the same elapsed time is credited again on the next call", [f"exit at line {path[-1].line if path else '?'}"])
         else:
             r6.ok({"function": fn.short, "refill": norm(refills[0].ast)[:70], "stamp": model.stamp, "paired_on_all_paths": True})
+    # (c) regulation only delays: a caller waits for the bucket at most once. A loop that re-tests the *shared* level after every
+    # sleep lets later, smaller frames keep draining the bucket, so an accepted frame can be starved for as long as the stream
+    # lasts (an unbounded wait). A loop is accepted only under a lock that serialises the waiters (`async with <lock>`).
+    for fn, model in ((w, bm), (mwf, bmm)):
+        r6.instances += 1
+        r6.nontrivial += 1
+        loops = []
+        for n in own_nodes(fn.node):
+            if isinstance(n, ast.While) and model.level in model._deps(n.test) | reads(n.test) and any(isinstance(x, ast.Await) for b in n.body for x in ast.walk(b)):
+                p2 = getattr(n, "parent", None)
+                locked = False
+                while p2 is not None and not isinstance(p2, (ast.FunctionDef, ast.AsyncFunctionDef)):
+                    if isinstance(p2, ast.AsyncWith):
+                        locked = True
+                    p2 = getattr(p2, "parent", None)
+                if not locked:
+                    loops.append(n)
+        if loops:
+            r6.fail(f"{fn.short}:re-waits-on-shared-bucket", fn.loc(loops[0]), f"`while {norm(loops[0].test)[:50]}: ... await ...` re-tests the shared bucket after each sleep without serialising the waiters: frames written by other callers in the meantime can keep an accepted (larger) frame waiting indefinitely")
+        else:
+            r6.ok({"function": fn.short, "waits_for_the_bucket": "at most once per call"})
     out.append(r6)
 
     # ---- R4 ---------------------------------------------------------------------------
@@ -337,17 +358,19 @@ class BucketModel:
         self.shared = set(shared)
         self.n_awaits = 0
         self.clock_locals: set[str] = set()
-        for n in own_nodes(fn):
+        # local helper functions (closures over the same shared variables) are part of the limiter
+        self.helpers = {n.name: n for n in ast.walk(fn) if isinstance(n, (ast.FunctionDef, ast.AsyncFunctionDef)) and n is not fn}
+        for n in ast.walk(fn):
             if isinstance(n, ast.Assign) and len(n.targets) == 1 and isinstance(n.targets[0], ast.Name) and norm(n.value) in CLOCKS:
                 self.clock_locals.add(n.targets[0].id)
         # flow-insensitive local deps: local -> shared vars / clock it derives from
         self.ldeps: dict[str, set[str]] = {}
         for _ in range(4):
-            for n in own_nodes(fn):
+            for n in ast.walk(fn):
                 for tgt, val in self._assignments(n):
                     if isinstance(tgt, ast.Name) and tgt.id not in self.shared:
                         self.ldeps.setdefault(tgt.id, set()).update(self._deps(val))
-        self.stamp = next((v for v in sorted(self.shared) if any(self.writes(n, v) and self._is_clock(self._value_for(n, v)) for n in own_nodes(fn))), None)
+        self.stamp = next((v for v in sorted(self.shared) if any(self._writes_direct(n, v) and self._is_clock(self._value_for(n, v)) for n in ast.walk(fn))), None)
         if self.stamp is None:
             # never written here: the variable the clock is measured against (`<clock> - X`) is still the stamp
             for n in own_nodes(fn):
@@ -362,7 +385,7 @@ class BucketModel:
                     break
         self.level = None
         if self.stamp is not None:
-            self.level = next((v for v in sorted(self.shared) if v != self.stamp and any(self.writes(n, v) and self.stamp in self._deps(self._value_for(n, v)) for n in own_nodes(fn))), None)
+            self.level = next((v for v in sorted(self.shared) if v != self.stamp and any(self._writes_direct(n, v) and self.stamp in self._deps(self._value_for(n, v)) for n in ast.walk(fn))), None)
 
     @staticmethod
     def _assignments(n: ast.AST):
@@ -390,8 +413,22 @@ class BucketModel:
             out |= self.ldeps.get(r, set())
         return out
 
-    def writes(self, n: ast.AST, var: str | None) -> bool:
+    def _writes_direct(self, n: ast.AST, var: str | None) -> bool:
         return var is not None and any(norm(t) == var for t, _v in self._assignments(n))
+
+    def _helper_called(self, n: ast.AST) -> "ast.AST | None":
+        """The local helper a statement calls (`top_up_bucket()`), if any."""
+        if isinstance(n, ast.Expr) and isinstance(n.value, (ast.Call, ast.Await)):
+            c = n.value.value if isinstance(n.value, ast.Await) else n.value
+            if isinstance(c, ast.Call) and isinstance(c.func, ast.Name) and c.func.id in self.helpers:
+                return self.helpers[c.func.id]
+        return None
+
+    def writes(self, n: ast.AST, var: str | None) -> bool:
+        if self._writes_direct(n, var):
+            return True
+        h = self._helper_called(n)
+        return h is not None and any(self._writes_direct(x, var) for x in ast.walk(h))
 
     def _value_for(self, n: ast.AST, var: str) -> ast.AST | None:
         for t, v in self._assignments(n):
@@ -400,11 +437,17 @@ class BucketModel:
         return None
 
     def is_refill(self, n: ast.AST) -> bool:
-        """A write of the level whose value depends on the stamp (elapsed time) - directly or through locals."""
-        return self.writes(n, self.level) and self.stamp in self._deps(self._value_for(n, self.level))  # type: ignore[arg-type]
+        """A write of the level whose value depends on the stamp (elapsed time) - directly, through locals, or in a local helper."""
+        if self._writes_direct(n, self.level) and self.stamp in self._deps(self._value_for(n, self.level)):  # type: ignore[arg-type]
+            return True
+        h = self._helper_called(n)
+        return h is not None and any(self._writes_direct(x, self.level) and self.stamp in self._deps(self._value_for(x, self.level)) for x in ast.walk(h))  # type: ignore[arg-type]
 
     def is_stamp_update(self, n: ast.AST) -> bool:
-        return self.writes(n, self.stamp) and self._is_clock(self._value_for(n, self.stamp))  # type: ignore[arg-type]
+        if self._writes_direct(n, self.stamp) and self._is_clock(self._value_for(n, self.stamp)):  # type: ignore[arg-type]
+            return True
+        h = self._helper_called(n)
+        return h is not None and any(self._writes_direct(x, self.stamp) and self._is_clock(self._value_for(x, self.stamp)) for x in ast.walk(h))  # type: ignore[arg-type]
 
     # -- flow-sensitive: snapshots of shared variables vs suspension points -----------------------
 
